@@ -345,6 +345,26 @@ func genWorld08(r *simcore.Rand) *indexsim.WorldSpec {
 			g.add(indexsim.Item{K: "claim", S: 0, PN: coll, CT: "add", Attr: "camliMember", Ref: t + 1, D: g.date(coll, pool)})
 		}
 	}
+	// renames: a link undone and made again under another attribute (the
+	// two permanodes stay related, through a different edge), or moved from a
+	// member to a path
+	for k := r.Intn(3); k > 1 && len(g.pns) >= 2; k-- {
+		a, c := g.pick(g.pns), g.pick(g.pns)
+		if a == c {
+			continue
+		}
+		ds := []int64{g.date(a, pool), g.date(a, pool), g.date(a, pool)}
+		sort.Slice(ds, func(i, j int) bool { return ds[i] < ds[j] })
+		from, to := pathNames[0], pathNames[1]
+		if r.Bool(0.5) {
+			from, to = to, from
+		}
+		g.add(indexsim.Item{K: "claim", S: 0, PN: a, CT: "set", Attr: from, Ref: c + 1, D: ds[0]})
+		g.add(indexsim.Item{K: "claim", S: 0, PN: a, CT: "del", Attr: from, D: ds[1]})
+		g.add(indexsim.Item{K: "claim", S: 0, PN: a, CT: "set", Attr: to, Ref: c + 1, D: ds[2]})
+		g.pnVals[a][from] = nil
+		g.pnVals[a][to] = []string{fmt.Sprintf("#%d", c)}
+	}
 	for guard := 0; len(g.items) < target && guard < 200; guard++ {
 		pn := g.pick(g.pns)
 		if r.Bool(0.1) {
